@@ -149,7 +149,20 @@ def run_check(prop, tier, seed, scratch, t0, args):
             continue
         if r.status == "failed":
             ok, info = replay.confirm(ws, r, meta[name], scratch)
-            if ok:
+            if ok and meta[name].get("family") in ("I", "S"):
+                # An inductive step from an ARBITRARY table/state may fail on a pre-state no built automaton
+                # reaches (the representation invariant Inv is an over-approximation).  It is reported only
+                # with a public-API witness on a really built automaton (DESIGN.md 2.4).
+                traces_validated += 1
+                w = replay.witness_for_step(ws, name, prop, seed, scratch)
+                if w and w.get("haystack_hex") is not None:
+                    info["witness"] = w
+                    violations.append((name, r, info))
+                else:
+                    inconclusive.append("%s: step counterexample reproduces natively on an arbitrary table but no public-API "
+                                        "witness was found on the corpus automata (Inv too weak, or a layout the corpus lacks): %s"
+                                        % (name, "; ".join(f[1] for f in r.failed[:2])))
+            elif ok:
                 traces_validated += 1
                 violations.append((name, r, info))
             else:
